@@ -276,6 +276,53 @@ pub fn run(run: &Run) {
             roots.push((format!("Custom02+stakes@{}", h), j));
         }
     }
+    // long continuations of empty blocks: a restart after the root and after each of the first three blocks, then twelve blocks
+    // sealed under a pattern of proposer actions (state that the header does not commit to may surface only after several rewards)
+    for (name, rootn) in &roots {
+        let s0 = match &rootn.real {
+            Real::Sealed(s) => s.clone(),
+            _ => continue,
+        };
+        let patterns: Vec<(&str, Box<dyn Fn(usize) -> Option<melstructs::ProposerAction> + Sync>)> = vec![
+            ("every block with an action", Box::new(|i| Some(action_dest((i % 3) as u8 + 1)))),
+            ("alternating", Box::new(|i| if i % 2 == 0 { Some(action_dest(2)) } else { None })),
+            ("two without, then actions", Box::new(|i| if i < 2 { None } else { Some(melstructs::ProposerAction { fee_multiplier_delta: -128, reward_dest: addr_true() }) })),
+        ];
+        for (pname, pat) in &patterns {
+            for restart_after in 0..4usize {
+                let outcome = guard(|| {
+                    let mut orig = s0.clone();
+                    for i in 0..restart_after {
+                        orig = orig.next_unsealed().seal(pat(i));
+                    }
+                    let mut rebuilt = match restart(&orig) {
+                        Ok(r) => r,
+                        Err(_) => return None,
+                    };
+                    for i in restart_after..restart_after + 12 {
+                        orig = orig.next_unsealed().seal(pat(i));
+                        rebuilt = rebuilt.next_unsealed().seal(pat(i));
+                        if orig.header() != rebuilt.header() {
+                            return Some((i, header_diff(&orig.header(), &rebuilt.header()).join(",")));
+                        }
+                    }
+                    None
+                });
+                run.transition();
+                run.validated();
+                match outcome {
+                    Ok(Some((i, what))) => run.violation(
+                        "C08",
+                        format!("long-continuation-diverges/{}", what),
+                        format!("root {}: restart after {} block(s), pattern '{}': headers differ in {} at block {} of the continuation", name, restart_after, pname, what, i + 1 - restart_after),
+                        json!({"root": name, "restart_after_blocks": restart_after, "pattern": pname, "diverges_at_block": i}),
+                    ),
+                    Ok(None) => run.outcome("long-continuation:same"),
+                    Err(_) => run.outcome("long-continuation:panic(reported under C09)"),
+                }
+            }
+        }
+    }
     let mut points_total = 0;
     for (name, rootn) in roots {
         let collected = parking_lot::Mutex::new(vec![]);
